@@ -49,6 +49,7 @@ const U_CANCEL: u32 = 103;
 const U_TOKEN: u32 = 104;
 const U_PUSH_READY: u32 = 105;
 const U_POP_RES: u32 = 106;
+const U_POLL: u32 = 107;
 const U_PUSH: u32 = 110;
 const U_PUSHED: u32 = 111;
 
@@ -250,7 +251,9 @@ fn run(case: &[u64]) -> Result<Vec<u64>, BadCase> {
                 let _ = (&pairs[r].1).write(&data);
             }
             5 => {
+                verif::emit(U_POLL, 0, a as i64);
                 let _ = p.poll(Some(Duration::from_millis(a)));
+                verif::emit(U_POLL, 1, a as i64);
             }
             6 => {
                 let i = a as usize;
@@ -530,6 +533,11 @@ fn run(case: &[u64]) -> Result<Vec<u64>, BadCase> {
         }
         if k >= 100 {
             if k == U_PUSH || k == U_PUSHED {
+                continue;
+            }
+            if k == U_POLL {
+                // poll boundaries: a = 0 begin / 1 end, not tied to an operation
+                evs.push((k as u64, e.a, e.b as u64));
                 continue;
             }
             let slot = e.a & 0xffff_ffff;
